@@ -326,7 +326,16 @@ fn history(front: Front, reg: Reg, rng: &mut Prng, col: &mut Collector) {
         let mut two_classc = false;
         if n == next_target || rng.chance(1, 150) || (suspended && rng.chance(1, 6)) {
             next_target = *rng.pick(&targets);
-            let kind = rng.below(6);
+            let mut kind = rng.below(7);
+            // (kind 6: an authentic, fresh downlink that is far too long for the RX2 rate of the plan - it is
+            // not accepted, so nothing restarts and nothing is owed; only where the plan's default RX2 rate
+            // makes 200 octets clearly too many)
+            if kind == 6 {
+                let (sf, bw) = reg.lora_dr(reg.rx2_default().1).unwrap_or((7, 125_000));
+                if !((bw == 125_000 && sf >= 9) || (bw == 500_000 && sf >= 11)) {
+                    kind = 4;
+                }
+            }
             dl_confirmed = rng.chance(1, 3);
             // one accepted downlink in three commands a transmit power (LinkADRReq, rate and mask kept): the
             // connectivity count and the rate steps at 96, 128, ... are what they are without it
@@ -388,6 +397,13 @@ fn history(front: Front, reg: Reg, rng: &mut Prng, col: &mut Collector) {
                     b[l - 2] ^= 0x10;
                     script.rx1.push(b);
                     plan = "bad-mic";
+                }
+                6 => {
+                    let long = vec![0x3Cu8; 200];
+                    let b = net.downlink(&Down { fcnt: fcnt_down + 1, confirmed: dl_confirmed, port: Some(9), payload: &long, ..Default::default() });
+                    script.rx2.push(b);
+                    plan = "oversize-authentic";
+                    col.event("authentic_oversized_downlinks");
                 }
                 _ => {
                     // replay of an old counter (only meaningful once something was accepted)
